@@ -35,13 +35,27 @@ type recSub struct {
 func (r *recSub) OnNext(t notifications.Topic, e notifications.Event) {
 	r.mu.Lock()
 	defer r.mu.Unlock()
-	r.evs = append(r.evs, fmt.Sprintf("ENext %d %d", t.(uint64), e.(uint64)))
+	r.evs = append(r.evs, fmt.Sprintf("ENext %d %d", pubTopicNum(t), e.(uint64)))
 }
 func (r *recSub) OnClose(t notifications.Topic) {
 	r.mu.Lock()
 	defer r.mu.Unlock()
-	r.evs = append(r.evs, fmt.Sprintf("EClose %d", t.(uint64)))
-	delete(r.subs, t.(uint64))
+	r.evs = append(r.evs, fmt.Sprintf("EClose %d", pubTopicNum(t)))
+	delete(r.subs, pubTopicNum(t))
+}
+
+// topic 0 of a script is the nil interface value (a legal map key, so a topic like any other)
+func pubTopic(t uint64) notifications.Topic {
+	if t == 0 {
+		return nil
+	}
+	return t
+}
+func pubTopicNum(t notifications.Topic) uint64 {
+	if t == nil {
+		return 0
+	}
+	return t.(uint64)
 }
 
 type markerSub struct{ ch chan uint64 }
@@ -100,7 +114,7 @@ func runPubCase(c pubCase) (obs []string, nEvents int, timedOut bool) {
 		mu.Unlock()
 		switch o.K {
 		case "subscribe":
-			if ps.Subscribe(o.T, subs[o.S]) {
+			if ps.Subscribe(pubTopic(o.T), subs[o.S]) {
 				mu.Lock()
 				subs[o.S].subs[o.T] = true
 				mu.Unlock()
@@ -108,9 +122,9 @@ func runPubCase(c pubCase) (obs []string, nEvents int, timedOut bool) {
 		case "unsubscribe":
 			ps.Unsubscribe(subs[o.S])
 		case "publish":
-			ps.Publish(o.T, o.E)
+			ps.Publish(pubTopic(o.T), o.E)
 		case "close":
-			ps.Close(o.T)
+			ps.Close(pubTopic(o.T))
 		case "shutdown":
 			ps.Shutdown()
 			shut = true
@@ -162,6 +176,9 @@ func genPubCase(r *rng.R, maxOps int) pubCase {
 	for i := 0; i < n; i++ {
 		x := r.Intn(100)
 		t := uint64(r.Range(1, nt))
+		if r.P(1, 8) {
+			t = 0 // the nil interface value: a topic like any other
+		}
 		s := uint64(r.Range(1, ns))
 		switch {
 		case x < 35:
@@ -195,7 +212,7 @@ func drivePublisher(c *ctx) error {
 		{Name: "MISMATCH", Fn: "pcase_agrees"},
 		{Name: "MON18", Fn: "pcase_mon"},
 	})
-	w.Stats.Rule = "sequences of subscribe/unsubscribe/publish/close-topic/shutdown over 1-3 topics and 1-3 recording subscribers " +
+	w.Stats.Rule = "sequences of subscribe/unsubscribe/publish/close-topic/shutdown over 1-3 topics (plus, in 1 op of 8, the nil topic) and 1-3 recording subscribers " +
 		"on the real notifications publisher (a marker publish waits for the command queue to drain after every call); " +
 		"non-trivial = at least 3 events delivered and some subscription ended; distinct = distinct (script, observation) terms"
 	add := func(pc pubCase, tag string) {
